@@ -131,6 +131,8 @@ def _extract_nodes_and_run_space(
         pipeline = config.get("pipeline")
         if isinstance(pipeline, Mapping):
             nodes = pipeline.get("nodes", [])
+            if run_space is None:
+                run_space = pipeline.get("run_space")
         else:
             nodes = config.get("nodes", [])
         if not isinstance(nodes, list):
@@ -155,7 +157,15 @@ def _normalize_run_space(value: Any) -> Any:
 
 
 def _compute_run_space_spec_id(run_space: Mapping[str, Any]) -> str:
-    normalized = _normalize_run_space(run_space)
+    # Hash the representation the runtime hashes (the parsed dataclass with its
+    # defaults filled in), so that ``inspect`` and ``run_space_start`` agree.
+    from dataclasses import asdict
+
+    from semantiva.configurations.load_pipeline_from_yaml import (
+        _parse_run_space_block,
+    )
+
+    normalized = _normalize_run_space(asdict(_parse_run_space_block(run_space)))
     payload = json.dumps(normalized, separators=(",", ":"), ensure_ascii=False).encode(
         "utf-8"
     )
